@@ -204,6 +204,7 @@ NODE_OK = """res is Ok && res->Ok_0 is Some ==> ({
                 asm::ResolverNode::Align(n) => defined(&defs.align_directives, n.item_ref),
                 asm::ResolverNode::Addr(n) => defined(&defs.addr_directives, n.item_ref),
                 asm::ResolverNode::DataElement(n, k) => k < n.item_refs@.len() && k < n.elems@.len() && defined(&defs.data_elems, Some(n.item_refs@[k as int])),
+                asm::ResolverNode::Instruction(n) => defined(&defs.instructions, n.item_ref),
                 _ => true,
             })
         })"""
@@ -367,6 +368,30 @@ opts_types = [
 bigint_stubs = cb.items("stub", "util", only=["new", "checked_add", "checked_sub", "checked_mul", "checked_mod", "checked_into", "checked_into_nonzero_usize", "maybe_into", "slice", "size_or_min_size"], with_cmp=True)
 
 
+# ---- instructions: the stability check around resolve_encoding (C02)
+FIN = "src/asm/resolver/instruction.rs"
+resolve_encoding_stub = Fn(FIN, "resolve_encoding", slot="resolver", mode="stub", ret="res", ensures=[
+    C("err_is_loud", "res is Err ==> final(report).msgs() > old(report).msgs()"),
+    C("some_is_clean", "res is Ok && res->Ok_0 is Some ==> final(report).msgs() == old(report).msgs() && final(report).errors() == old(report).errors()"),
+    C("none_in_last_pass_is_loud", "res is Ok && res->Ok_0 is None && ctx.is_last_iteration ==> final(report).msgs() > old(report).msgs()"),
+    C("none_while_guessing_is_clean", "res is Ok && res->Ok_0 is None && !ctx.is_last_iteration ==> final(report).msgs() == old(report).msgs() && final(report).errors() == old(report).errors()"),
+    C("some_is_nonempty", "res is Ok && res->Ok_0 is Some ==> res->Ok_0->0@.len() >= 1"),
+    C("parents_balanced", "final(report).parents() == old(report).parents()"),
+])
+INS = "final(defs).instructions.defs@[(ast_instr.item_ref->0).0 as int]->0"
+OINS = "old(defs).instructions.defs@[(ast_instr.item_ref->0).0 as int]->0"
+resolve_instruction = Fn(
+    FIN, "resolve_instruction", slot="resolver", ret="res", props=["C02", "C03"],
+    requires=[C("item_defined", "defined(&old(defs).instructions, ast_instr.item_ref)", ["C03"])],
+    ensures=pass_contract() + [
+        C("resolved_means_unchanged_unless_frozen", "res == %s && !%s.resolved ==> %s.encoding.val() == %s.encoding.val()" % (STABLE, INS, INS, OINS), ["C02"]),
+        C("frozen_only_in_first_pass_when_statically_known", "%s.resolved && !%s.resolved ==> ctx.is_first_iteration && opts.optimize_statically_known && %s.encoding_statically_known" % (INS, OINS, OINS), ["C02", "C08"]),
+    ],
+    closures={1: ("|e: &Vec<(usize, &util::BigInt)>| -> (r: bool)\n            ensures r == (e@.len() == 1)\n       ", ""),
+              2: ("|e: &Vec<(usize, &util::BigInt)>| -> (r: util::BigInt)\n            requires e@.len() >= 1\n            ensures r == *e@[0].1\n       ", "")},
+    rewrites=[Rewrite(r"println!\((?:[^()]|\((?:[^()]|\([^()]*\))*\))*\);", "", regex=True, rule="R7", why="debug printing statement deleted", count=2)],
+)
+
 # ---- data directives (C04): width check then slice to width
 FD = "src/asm/resolver/data_block.rs"
 DE = "final(defs).data_elems.defs@[ast_data.item_refs@[elem_index as int].0 as int]->0"
@@ -424,9 +449,9 @@ UNIT = Unit(
     "U-resolver", "u_resolver/skeleton.rs",
     items=COMMON + [
               bits_until_alignment, can_guess, get_output_position, get_address, eval_address, advance_address,
-              merge, iter_new, iter_next, resolve_constant_stub, resolve_instruction_stub, resolve_once,
+              merge, iter_new, iter_next, resolve_constant_stub, resolve_once,
               resolve_label, resolve_res, resolve_align, resolve_addr, resolve_assert, eval_stub, eval_certain_stub, deflist_define, bankdef_define,
-              asm_query_type, asm_result_type, asm_resolve_once_stub, asm_resolve_iteratively, resolve_data_element] + value_stubs2 + value_verified,
+              asm_query_type, asm_result_type, asm_resolve_once_stub, asm_resolve_iteratively, resolve_data_element, resolve_encoding_stub, resolve_instruction] + value_stubs2 + value_verified,
     serves=["C01", "C02", "C03", "C06", "C09", "C19"],
     description="asm::resolver: address arithmetic (iter.rs), one resolution pass (resolve_once) and the per-item resolvers for labels, #res, #align, #addr, #assert",
 )
